@@ -97,7 +97,7 @@ func mtreeFilename(s string) string {
 	var b strings.Builder
 	for _, c := range []byte(s) {
 		switch {
-		case c == '\\' || c == '#' || c < 32 || c > 126:
+		case c == '\\' || c == '#' || c <= 32 || c > 126:
 			b.WriteString(fmt.Sprintf("\\%03o", c))
 		default:
 			b.WriteByte(c)
